@@ -761,7 +761,7 @@ impl RenderNode {
                 result
             }
             Header(level, ref v) => {
-                let prefix_size = decorator.header_prefix(level).len();
+                let prefix_size = UnicodeWidthStr::width(decorator.header_prefix(level).as_str());
                 let mut size = v
                     .iter()
                     .map(recurse)
@@ -2010,7 +2010,7 @@ fn do_render_node<T: Write, D: TextDecorator>(
         Header(level, children) => {
             let prefix = renderer.header_prefix(level);
             let prefix_size = size_estimate.prefix_size;
-            debug_assert!(prefix.len() == prefix_size);
+            debug_assert!(UnicodeWidthStr::width(prefix.as_str()) == prefix_size);
             let min_width = size_estimate.min_width;
             let inner_width = min_width.saturating_sub(prefix_size);
             let sub_builder =
@@ -2036,10 +2036,12 @@ fn do_render_node<T: Write, D: TextDecorator>(
         }
         BlockQuote(children) => {
             let prefix = renderer.quote_prefix();
-            debug_assert!(size_estimate.prefix_size == prefix.len());
-            let inner_width = size_estimate.min_width - prefix.len();
+            // Prefixes are measured by their display width, not their byte length.
+            let prefix_width = UnicodeWidthStr::width(prefix.as_str());
+            debug_assert!(size_estimate.prefix_size == prefix_width);
+            let inner_width = size_estimate.min_width - prefix_width;
             let sub_builder =
-                renderer.new_sub_renderer(renderer.width_minus(prefix.len(), inner_width)?)?;
+                renderer.new_sub_renderer(renderer.width_minus(prefix_width, inner_width)?)?;
             renderer.push(sub_builder);
             pending2(children, move |renderer: &mut TextRenderer<D>, _| {
                 let sub_builder = renderer.pop();
@@ -2053,7 +2055,7 @@ fn do_render_node<T: Write, D: TextDecorator>(
         }
         Ul(items) => {
             let prefix = renderer.unordered_item_prefix();
-            let prefix_len = prefix.len();
+            let prefix_len = UnicodeWidthStr::width(prefix.as_str());
 
             TreeMapResult::PendingChildren {
                 children: items,
@@ -2071,7 +2073,7 @@ fn do_render_node<T: Write, D: TextDecorator>(
                 postfn: Some(Box::new(move |renderer: &mut TextRenderer<D>, _| {
                     let sub_builder = renderer.pop();
 
-                    let indent = " ".repeat(prefix.len());
+                    let indent = " ".repeat(prefix_len);
 
                     renderer.append_subrender(
                         sub_builder,
@@ -2088,10 +2090,12 @@ fn do_render_node<T: Write, D: TextDecorator>(
             let min_number = start;
             // Assumption: num_items can't overflow isize.
             let max_number = start.saturating_add(num_items as i64).saturating_sub(1);
-            let prefix_width_min = renderer.ordered_item_prefix(min_number).len();
-            let prefix_width_max = renderer.ordered_item_prefix(max_number).len();
+            let prefix_width_min =
+                UnicodeWidthStr::width(renderer.ordered_item_prefix(min_number).as_str());
+            let prefix_width_max =
+                UnicodeWidthStr::width(renderer.ordered_item_prefix(max_number).as_str());
             let prefix_width = max(prefix_width_min, prefix_width_max);
-            let prefixn = format!("{: <width$}", "", width = prefix_width);
+            let prefixn = " ".repeat(prefix_width);
             let i: Cell<_> = Cell::new(start);
 
             TreeMapResult::PendingChildren {
@@ -2110,7 +2114,9 @@ fn do_render_node<T: Write, D: TextDecorator>(
                 postfn: Some(Box::new(move |renderer: &mut TextRenderer<D>, _| {
                     let sub_builder = renderer.pop();
                     let prefix1 = renderer.ordered_item_prefix(i.get());
-                    let prefix1 = format!("{: <width$}", prefix1, width = prefix_width);
+                    // Pad to the common display width.
+                    let pad = prefix_width.saturating_sub(UnicodeWidthStr::width(prefix1.as_str()));
+                    let prefix1 = prefix1 + &" ".repeat(pad);
 
                     renderer.append_subrender(
                         sub_builder,
@@ -2858,8 +2864,8 @@ fn calc_ol_prefix_size<D: TextDecorator>(start: i64, num_items: usize, decorator
     let max_number = start.saturating_add(num_items as i64).saturating_sub(1);
 
     // This assumes that the decorator gives the same width as default.
-    let prefix_width_min = decorator.ordered_item_prefix(min_number).len();
-    let prefix_width_max = decorator.ordered_item_prefix(max_number).len();
+    let prefix_width_min = UnicodeWidthStr::width(decorator.ordered_item_prefix(min_number).as_str());
+    let prefix_width_max = UnicodeWidthStr::width(decorator.ordered_item_prefix(max_number).as_str());
     max(prefix_width_min, prefix_width_max)
 }
 
